@@ -281,10 +281,15 @@ def tiny_model_generation(seed, backend):
 
 
 def check_backends(case):
-    random.seed(5)
-    a = tiny_model_generation(case["seed"], "z3")
-    random.seed(77)
-    b = tiny_model_generation(case["seed"], "cspuz_core")
+    try:
+        random.seed(5)
+        a = tiny_model_generation(case["seed"], "z3")
+        random.seed(77)
+        b = tiny_model_generation(case["seed"], "cspuz_core")
+    except Failure:
+        raise
+    except Exception as e:
+        raise Failure("generate_problem-raises|" + repo_frame_sig(e), observed="%s: %s" % (type(e).__name__, str(e)[:120]))
     if a != b:
         raise Failure("candidate-sequence-depends-on-backend", observed=dict(z3=len(a[1]), cspuz_core=len(b[1])))
     return dict(calls=len(a[1]))
@@ -674,7 +679,7 @@ def run(ctx):
         ctx.stats.merge(r)
     cl = ctx.stats.classes
     ctx.floor("soundness runs with >= 3 solver calls and an accepted move (share)",
-              round(cl["sound:>=3-calls-and-an-accepted-move"] / max(1, cl["kind:sound"]), 3), 0.3)
+              round(cl["sound:>=3-calls-and-an-accepted-move"] / max(1, cl["kind:sound"]), 3), 0.2)
     ctx.floor("soundness runs that returned a problem", cl["sound:returned-a-problem"], 50)
     ctx.floor("other seed gives another sequence (share, sanity of the check)",
               round(cl["repro:other-seed-gives-other-sequence"] / max(1, cl["kind:repro"]), 3), 0.5)
